@@ -275,6 +275,8 @@ def _from_mono(k: Fraction, f: dict) -> T:
     items.sort(key=lambda ge: ge[0].id)
     if len(items) == 1 and items[0][1] == 1:
         m = items[0][0]
+        if m.op == "add":
+            return scale(m, k)  # a lone sum is not wrapped: keep linear combinations flat
     else:
         m = _mk("mul", tuple(g for g, _ in items), tuple(e for _, e in items))
     if k == 1:
